@@ -1,6 +1,7 @@
 import CM.Proofs.Emphasis
 import CM.Proofs.EmphasisFuel
 import CM.Spec.Flanking
+import CM.Proofs.UnicodeClasses
 /-
 C11 — emphasis resolution follows the spec's delimiter-run algorithm.
 `Model.processEmphasis true` is the Go loop of inlines.go with its `openersBottom` search bounds (the model
@@ -69,5 +70,25 @@ private def f14 : List Delim :=
   [mk 0 1 false true 1, mk 1 2 true true 1, mk 2 1 true true 1, mk 3 2 true true 1, mk 4 1 true false 1, mk 5 1 true true 1]
 example : processEmphasis true f14 0 = [⟨1, 3, false⟩, ⟨4, 5, false⟩] := by decide +kernel
 example : processEmphasis false f14 0 = [⟨1, 3, false⟩, ⟨4, 5, false⟩] := by decide +kernel
+
+/-- What the flanking rules call "Unicode whitespace" is §2.1's definition, for EVERY code point: Zs, tab, line feed,
+    FORM FEED, carriage return (the form feed was missing from parse.go until the repair recorded in known_findings.jsonl).
+    The table fact `U+0020 ∈ Zs` is checked on Go's `unicode.Zs` on every run. -/
+theorem unicode_whitespace_eq_spec (u : UExt) (hsp : u.isZs 0x20 = true) (c : Nat) :
+    isUnicodeWhitespace u c = Spec.isUnicodeWhitespaceSpec u.isZs c :=
+  isUnicodeWhitespace_eq_spec u hsp c
+
+/-- … and "Unicode punctuation" is §2.1's: an ASCII punctuation character or anything in Pc, Pd, Pe, Pf, Pi, Po, Ps, for
+    every code point. The table fact (the only ASCII characters in those categories are ASCII punctuation) is checked on
+    Go's tables on every run. -/
+theorem unicode_punctuation_eq_spec (u : UExt)
+    (hP : ∀ c, c < 0x80 → u.isP c = true → isASCIIPunctuation (UInt8.ofNat c) = true) (c : Nat) :
+    isUnicodePunctuation u c = Spec.isUnicodePunctuationSpec u.isP c :=
+  isUnicodePunctuation_eq_spec u hP c
+
+-- Non-vacuity: a table with the real ASCII facts; form feed is whitespace, `$` is punctuation, `£` (Sc) is not.
+private def uEx : UExt := { isZs := fun c => c == 0x20 || c == 0xA0, isP := fun c => c == 0x21 || c == 0xA1 }
+example : uEx.isZs 0x20 = true ∧ isUnicodeWhitespace uEx 0x0C = true ∧ isUnicodeWhitespace uEx 0x61 = false := by decide
+example : isUnicodePunctuation uEx 0x24 = true ∧ isUnicodePunctuation uEx 0xA3 = false ∧ isUnicodePunctuation uEx 0xA1 = true := by decide
 
 end CM.Props.C11
